@@ -170,4 +170,62 @@ example :
     peek (store truthyNat (initHeap (multOf sample) (fun _ => Slot.scalar 0)) sampleTrace) [0, 1, 2, 3]
       = .inr [.list [0, 0, 5], .scalar 0, .list [0], .scalar 7] := by decide
 
+/-! ### list assignment nodes with separator matches (`attr+=X[sep]`, `attr*=X[sep]`) -/
+
+/-- **Dynamic half on the raw parse tree nodes.**  `t` are the `__asgn_*` nodes of one
+object as Arpeggio built them — a list assignment node with *all* its children, value
+nodes and separator nodes in whatever arrangement — and `Raw.ev` reads off each node the
+values of the children not made by the node's separator match.  If these events are a
+trace of the rule body, `process_node` over the raw nodes (`storeRaw`, the loop that
+skips separator children where they stand) never fails, and after every prefix the
+object holds exactly the values of the non-separator children matched so far, each
+once, in input order. -/
+theorem C02_store_raw (truthy : V → Bool) (b : Body) (hacc : accepted b = true)
+    (dflt : Attr → Slot V) (hd : ∀ a, Falsy truthy (dflt a))
+    (t : List (Raw V)) (ht : Events b (t.map Raw.ev)) (t1 t2 : List (Raw V)) (hsplit : t = t1 ++ t2) :
+    ∃ h, storeRaw truthy (initHeap (multOf b) dflt) t1 = .ok h ∧
+      Stored (multOf b) dflt (t1.map Raw.ev) h := by
+  rw [storeRaw_eq]
+  exact C02_store truthy b hacc dflt hd (t.map Raw.ev) ht (t1.map Raw.ev) (t2.map Raw.ev)
+    (by rw [hsplit, List.map_append])
+
+/-- **No separator is stored, no value is skipped.**  A list assignment node whose
+children were made by the value expression `r` or by the separator match `s` (two
+different parsing expressions), interleaved in *any* way — a separator that matched
+the empty string leaves no node, one matched before a failing value stays as a
+trailing node, so the two kinds need not alternate: the loop appends to the list
+exactly the values of the `r` children, in input order, and touches nothing else. -/
+theorem C02_list_node (a : Attr) (r s : Nat) (hrs : r ≠ s) (ks : List (Kid V))
+    (hshape : ∀ k ∈ ks, k.rule = r ∨ k.rule = s) (h : Heap V) (xs : List V) (hl : h a = .list xs) :
+    ∃ h', storeKids h a (some s) ks = .ok h' ∧
+      h' a = .list (xs ++ (ks.filter (fun k => k.rule == r)).map Kid.val) ∧
+      ∀ c, c ≠ a → h' c = h c := by
+  rw [storeKids_eq, kidVals_of_shape r s hrs ks hshape]
+  exact storeList_list a _ h xs hl
+
+/-- Without a separator modifier every child is a value — also the children made by
+a grammar rule that happens to be called `sep`. -/
+theorem C02_list_node_nosep (a : Attr) (ks : List (Kid V)) (h : Heap V) (xs : List V)
+    (hl : h a = .list xs) :
+    ∃ h', storeKids h a none ks = .ok h' ∧ h' a = .list (xs ++ ks.map Kid.val) ∧
+      ∀ c, c ≠ a → h' c = h c := by
+  rw [storeKids_eq, kidVals_none]
+  exact storeList_list a _ h xs hl
+
+/-- Telling separators by their *place* (every second child) is wrong: `a+=INT[/,?/]` on
+`1, 2 3, 4` has the children `1 , 2 3 , 4` (value expression 0, separator match 1, the
+separator text shown as 99): by place the list is `[1, 2, ","]`, and `0 5` gives `[0]`. -/
+theorem C02_sep_by_place_false :
+    let ks : List (Kid Nat) := [⟨0, 1⟩, ⟨1, 99⟩, ⟨0, 2⟩, ⟨0, 3⟩, ⟨1, 99⟩, ⟨0, 4⟩]
+    kidVals (some 1) ks = [1, 2, 3, 4] ∧ kidValsByPlace (some 1) ks = [1, 2, 99] ∧
+    kidVals (some 1) [(⟨0, 0⟩ : Kid Nat), ⟨0, 5⟩] = [0, 5] ∧
+    kidValsByPlace (some 1) [(⟨0, 0⟩ : Kid Nat), ⟨0, 5⟩] = [0] := by decide
+
+/-- the conclusion of `C02_store_raw` computed: `c+=INT[',']` with a trailing separator
+node, then `a=INT` -/
+example :
+    peek (storeRaw truthyNat (initHeap (multOf sample) (fun _ => Slot.scalar 0))
+      [.list 2 true (some 1) [⟨0, 0⟩, ⟨1, 99⟩, ⟨0, 7⟩, ⟨1, 99⟩], .plain 0 5]) [0, 2]
+      = .inr [.list [5], .list [0, 7]] := by decide
+
 end Mult
